@@ -455,6 +455,18 @@ class VariableWithCostDict(Variable):
     def __hash__(self):
         return super().__hash__() ^ hash(tuple(self._costs.values()))
 
+    @classmethod
+    def _from_repr(cls, r):
+        v = super()._from_repr(r)
+        # When the representation went through JSON, the keys of the costs dict
+        # have been turned into strings: map them back to the domain values.
+        by_str = {str(d): d for d in v.domain.values}
+        v._costs = {
+            k if k in v.domain.values else by_str.get(k, k): c
+            for k, c in v._costs.items()
+        }
+        return v
+
     def clone(self):
         return VariableWithCostDict(
             self.name, self.domain, self._costs, initial_value=self.initial_value
